@@ -130,13 +130,13 @@ PROPS = {
         'not_decided': ['that a later change to P re-executes the command (paper lemma L1)', 'file reading'],
     },
     'C12': {
-        'units': ['dirtree'],
+        'units': ['dirtree', 'dirfilter'],
         'design_ref': 'DESIGN.md section 4, C12 (lemma L2 on paper)',
         'claim': 'kernel: a directory-tree (structure) signature task requests the (filtered) contents key of its path, one node key per listed name in '
                  'order and, for every child that is an existing directory, exactly one sub-tree signature key for path/name WITH THE SAME FILTERS; stores '
                  'each value in the slot of its id; feeds the hash chain with the path, the directory value (structure: only its mode) and for every child '
                  'in order its value (structure: its name and its mode) and its sub-signature or the nil marker; DirectoryContentsTask::isResultValid '
-                 'invalidates on existence, type, stat or listing changes (length and names in order)',
+                 'invalidates on existence, type, stat or listing changes (length and names in order); getFilteredContents lists an entry exactly once iff no pattern matches its name, independently of the other entries (at most 4 entries / 3 patterns named in the model), and sorts the listing',
         'not_decided': ['real directory iteration, symlinks, fnmatch filtering (getFilteredContents not under contract)', 'that a deep edit reaches the root '
                         '(lemma L2, induction on depth, paper)', 'hash collision freedom', 'names are compared by identity (string equality is assumed)'],
     },
@@ -158,7 +158,7 @@ PROPS = {
                  'pathIsPrefixedByPath(file, root) holds for some configured root; nothing is removed without a prior stale-file-removal result; the '
                  'result recorded is always built from the CURRENT expected-output list.  pathIsPrefixedByPath agrees with the component-wise prefix '
                  'specification of the property statement (one trailing separator of the root ignored) -- BOUNDED: all pairs of strings of length <= 6',
-        'not_decided': ['computeFilesToDelete (std::set / std::set_difference: assumed to compute prior minus expected)', 'pathIsPrefixedByPath on strings longer than the bound',
+        'not_decided': ['std::set / std::set_difference themselves (computeFilesToDelete is proved to hand them the prior list and the current list as duplicate-free sorted sets, output into filesToDelete)', 'pathIsPrefixedByPath on strings longer than the bound',
                         'recursive directory removal (FileSystem::remove)'],
     },
     'C15': {
